@@ -349,9 +349,13 @@ def processLine (acc : Acc) (line : String) : Acc :=
         let lk := if dkv.has "lk" then dkv.get "lk" else acc.lk
         let dev := akv.get "dev"
         let rec_ := parseRec (akv.get "evm")
-        let m := if dev == "-" then runHonest acc.env acc.cfg acc.cur op rec_ else runScript acc.env acc.cfg acc.cur op rec_
+        let m0 := if dev == "-" then runHonest acc.env acc.cfg acc.cur op rec_ else runScript acc.env acc.cfg acc.cur op rec_
+        -- `later=1`: a later message of the same transaction failed (class `rej:later` when this message itself had
+        -- succeeded): the transaction's branch is discarded (`deliver`), nothing changed, whatever the handler did
+        let later := akv.get "later" == "1"
+        let m := if later && m0.ok then { m0 with ok := false, rej := "later", resp := .none, st := acc.cur.st, tok := some acc.cur.evm } else m0
         let comps : List String :=
-          (if m.ok != implOk then ["outcome"] else []) ++
+          (if m.ok != implOk || (later && m0.ok != (implClass == "rej:later")) then ["outcome"] else []) ++
           (if m.ok && implOk && m.resp != implResp then ["resp"] else []) ++
           (if !bankEq m.st.bank implPost.st.bank then ["bank"] else []) ++
           (if !regEq m.st.reg implPost.st.reg then ["reg"] else []) ++
@@ -365,7 +369,7 @@ def processLine (acc : Acc) (line : String) : Acc :=
                          post := implPost, answers := rec_.map (·.2), honest := dev == "-",
                          lookups := parseLk lk, clean := acc.clean, prev := acc.prev }
         let viol := monitors.filterMap (fun (pid, name, f) => if f tr then none else some s!"{seq} V {pid} {name}")
-        let tag := s!"{branchOf acc.cur.st acc.cur.evm op}/{if implOk then "ok" else "rej"}/{devClass dev}"
+        let tag := s!"{branchOf acc.cur.st acc.cur.evm op}/{if implOk then "ok" else "rej"}/{devClass dev}{if later then "/later" else ""}"
         let l :=
           if comps.isEmpty then s!"{seq} A {tag}"
           else s!"{seq} D {tag} comps={",".intercalate comps} model={if m.ok then "ok" else "rej:" ++ m.rej} impl={implClass} " ++
